@@ -129,12 +129,20 @@ class ServerLoop(impl.VirtualLoop):
         async def finish():
             # let the consumer task and the worker threads (archive, LIMS push) finish
             try:
-                for _ in range(2000):
+                import time as _time
+                deadline = _time.monotonic() + 60          # real seconds: worker threads run in real time
+                while _time.monotonic() < deadline:
                     pending = [x for x in asyncio.all_tasks(self) if x is not asyncio.current_task()
                                and not x.done() and "consume" not in repr(x.get_coro())]
                     if not pending:
-                        break
-                    await asyncio.wait(pending, timeout=0.05)
+                        # one more turn of the loop for callbacks the finished tasks scheduled, then look again
+                        await asyncio.sleep(0)
+                        pending = [x for x in asyncio.all_tasks(self) if x is not asyncio.current_task()
+                                   and not x.done() and "consume" not in repr(x.get_coro())]
+                        if not pending:
+                            break
+                    # wait in real time (the virtual clock would skip any asyncio timeout at once)
+                    await self.run_in_executor(None, _time.sleep, 0.003)
             except Exception as e:  # noqa
                 self.errors.append("finish: %r" % (e,))
             finally:
